@@ -62,6 +62,17 @@ Definition bytes0_ok (c : ccase) (m : list spath) : bool :=
   | _, _ => true
   end.
 
+(** the implementation's raw bytes of the first path decode (specification decoder) to the
+    fields its view accessors report *)
+Definition bytes0_decodes (c : ccase) : bool :=
+  match c_out c with
+  | p :: _ => match decode_std (c_bytes0 c) with
+              | Some segs => list_eqb oseg_eqb segs (o_segs p)
+              | None => false
+              end
+  | [] => true
+  end.
+
 (** C04 oracles, for cases the generator declares well-formed *)
 Definition c04_ok (c : ccase) : bool :=
   sorted_by_hops (c_out c) && no_dup_routes (c_out c)
@@ -82,8 +93,11 @@ Definition verdict (c : ccase) : N :=
                      && route_subset (map obs_path ps) (c_out c) && route_subset (c_out c) (map obs_path ps))
           else negb (list_eqb opath_eqb (map obs_path ps) (c_out c) && bytes0_ok c ps && c_stable c))
     end in
+  (* the generator's claim of well-formedness must be the hypothesis of the C04 theorems *)
+  let wf_claim_bad := c_wf c && negb (forallb wf_segb (c_cores c ++ c_noncores c)) in
+  let mismatch := mismatch || wf_claim_bad in
   let bad := c_panic c
-             || negb (forallb self_consistent (c_out c))
+             || negb (forallb self_consistent (c_out c)) || negb (bytes0_decodes c)
              || (c_wf c && negb (c04_ok c)) in
   (if mismatch then 1 else 0) + (if bad then 2 else 0).
 
